@@ -52,8 +52,8 @@ static void chk(int argc, char** argv)
 	{
 		u16* src = (u16*)BIG3; size_t m = A(0) >= 2 && A(0) <= 65536 ? A(0) : 2;
 		for (i = 0; i < 700; ++i) src[i] = (u16)((i * 7) % m);
-		code = f[7] == 'E' ? beltFMTEncr((u16*)BIG2, (u32)A(0), src, A(1), K32, A(2), IV16)
-			: beltFMTDecr((u16*)BIG2, (u32)A(0), src, A(1), K32, A(2), IV16);
+		code = f[7] == 'E' ? beltFMTEncr((u16*)BIG2, (u32)A(0), src, A(1), K32, A(2), 0)
+			: beltFMTDecr((u16*)BIG2, (u32)A(0), src, A(1), K32, A(2), 0);
 	}
 	else if (IS("beltKRP", 2)) code = beltKRP(BIG2, A(0), K32, A(1), BIG, HDR16);
 	else if (IS("beltPBKDF2", 3)) code = beltPBKDF2(BIG2, BIG, A(0), A(1), BIG + 5000, A(2));
@@ -86,8 +86,8 @@ static void chk(int argc, char** argv)
 	}
 	else if (IS("botpHOTPRand", 2)) code = botpHOTPRand(OTP, A(0), BIG, A(1), BIG + 100);
 	else if (IS("botpTOTPRand", 3)) code = botpTOTPRand(OTP, A(0), BIG, A(1), (tm_time_t)A(2));
-	else if (IS("bpkiPrivkeyWrap", 3)) { size_t l = 0; code = bpkiPrivkeyWrap(BIG2, &l, PRIV, A(0), BIG, A(1), IV16, A(2)); }
-	else if (IS("bpkiShareWrap", 3)) { size_t l = 0; memcpy(BIG3, K32, 33); BIG3[0] = 3; code = bpkiShareWrap(BIG2, &l, BIG3, A(0), BIG, A(1), IV16, A(2)); }
+	else if (IS("bpkiPrivkeyWrap", 3)) { size_t l = 0; code = bpkiPrivkeyWrap(BIG2, &l, BIG + 9000, A(0), BIG, A(1), IV16, A(2)); }
+	else if (IS("bpkiShareWrap", 3)) { size_t l = 0; memcpy(BIG3 + 1, K32, 32); BIG3[0] = 3; code = bpkiShareWrap(BIG2, &l, BIG3, A(0), BIG, A(1), IV16, A(2)); }
 	else { printf("unknown"); return; }
 	if (code == ERR_OK) printf("pass"); else printf("%u", (unsigned)code);
 }
